@@ -128,11 +128,19 @@ Section Clash.
   Variable cls_name snake optional : list byte -> list byte.
   Hypothesis snake_plain : forall l, l <> [] -> forallb plain_segb l = true -> snake (py_join b_dot l) = py_join b_us l.
 
-  Lemma gtr_shape (cur tgt : list (list byte)) T (unwrap pyd : bool) s :
+  (* the annotation that goes with a shape *)
+  Definition ref_text (sh : shape) (C : list byte) : list byte :=
+    match sh with
+    | ShRoot _ _ => quoted (sh_alias sh)
+    | _ => quoted (sh_alias sh ++ b_dot :: C)
+    end.
+
+  Lemma gtr_shape (cur tgt : list (list byte)) T (unwrap pyd : bool) :
     plain_pkgb cur = true -> plain_pkgb tgt = true -> type_okb T = true ->
     path_eqb tgt google_protobuf = false ->
-    snd (get_type_reference cls_name snake optional (py_join b_dot cur) (b_dot :: py_join b_dot (tgt ++ [T])) unwrap pyd) = Some s ->
-    exists sh, s = render sh /\ valid cur tgt (cls_name T) sh.
+    let res := get_type_reference cls_name snake optional (py_join b_dot cur) (b_dot :: py_join b_dot (tgt ++ [T])) unwrap pyd in
+    (tgt = cur /\ res = (quoted (cls_name T), None)) \/
+    (exists sh, res = (ref_text sh (cls_name T), Some (render sh)) /\ valid cur tgt (cls_name T) sh).
   Proof.
     intros Pcur Ptgt HT Hg.
     pose proof (plain_pkg_ok _ Pcur) as Hcur. pose proof (plain_pkg_ok _ Ptgt) as Htgt.
@@ -143,7 +151,9 @@ Section Clash.
     rewrite !split_pkg_join by assumption.
     cbv beta iota zeta. rewrite Hg. cbn [andb]. rewrite (plain_not_betterproto _ Ptgt).
     set (C := cls_name T).
-    destruct (path_eqb tgt cur) eqn:E1; [cbn [snd reference_sibling]; discriminate|].
+    destruct (path_eqb tgt cur) eqn:E1.
+    { left. apply path_eqb_eq in E1. split; [exact E1 | reflexivity]. }
+    right.
     apply path_eqb_neq in E1.
     destruct (path_eqb (firstn (length cur) tgt) cur) eqn:E2.
     { apply path_eqb_eq in E2. apply firstn_eq_prefix in E2.
@@ -152,14 +162,14 @@ Section Clash.
       destruct (snoc_cases rest) as [->|[ys [x ->]]]; [congruence|].
       unfold reference_descendent. rewrite skipn_length_app, removelast_snoc, last_snoc.
       destruct ys as [|y0 ys'].
-      - cbn [py_join snd]. intros H. injection H as <-. exists (ShChild x). split; reflexivity.
+      - cbn [py_join]. exists (ShChild x). split; reflexivity.
       - assert (HJ : py_join b_dot (y0 :: ys') <> []).
         { apply py_join_nonnil; [discriminate|].
           apply plain_pkgb_app in Ptgt. destruct Ptgt as [_ Pr]. apply plain_pkgb_app in Pr. destruct Pr as [Pys _].
           apply plain_pkg_facts in Pys. rewrite Forall_forall in *. intros z Hz. destruct (Pys z Hz).
           apply identb_nonnil. assumption. }
         destruct (py_join b_dot (y0 :: ys')) as [|j0 jr] eqn:EJ; [congruence|]. cbv iota. rewrite <- EJ.
-        cbn [snd]. intros H. injection H as <-. exists (ShDesc (y0 :: ys') x). split; [reflexivity|].
+        exists (ShDesc (y0 :: ys') x). split; [reflexivity|].
         split; [reflexivity | discriminate]. }
     destruct (path_eqb (firstn (length tgt) cur) tgt) eqn:E3.
     { apply path_eqb_eq in E3. apply firstn_eq_prefix in E3.
@@ -167,11 +177,11 @@ Section Clash.
       assert (Hrest : rest <> []) by (intros ->; apply E1; symmetry; apply app_nil_r).
       unfold reference_ancestor. rewrite app_length_sub.
       destruct (snoc_cases tgt) as [->|[ts [x ->]]].
-      - cbn [snd]. intros H. injection H as <-. exists (ShRoot (length rest) C). split; [reflexivity|].
+      - exists (ShRoot (length rest) C). split; [reflexivity|].
         cbn [valid app]. repeat split; assumption.
       - rewrite last_snoc.
         destruct (ts ++ [x]) as [|t0 tr] eqn:E; [destruct ts; discriminate|]. cbv iota. rewrite <- E.
-        cbn [snd]. intros H. injection H as <-. exists (ShAnc (length rest) x). split; [reflexivity|].
+        exists (ShAnc (length rest) x). split; [reflexivity|].
         exists ts, rest. repeat split; assumption. }
     destruct (common_prefix_decomp cur tgt) as [ra [rb [Hc Ht]]].
     assert (Hra : ra <> []).
@@ -190,8 +200,19 @@ Section Clash.
     subst cur tgt. rewrite app_length_sub. rewrite skipn_length_app.
     rewrite snake_plain by (assumption || (destruct ys; discriminate)).
     rewrite removelast_snoc. rewrite (app_assoc sh ys [x]), last_snoc.
-    cbn [snd]. intros H. injection H as <-. exists (ShCousin (length ra) ys x). split; [reflexivity|].
+    exists (ShCousin (length ra) ys x). split; [reflexivity|].
     exists sh, ra. rewrite <- (app_assoc sh ys [x]). repeat split; try reflexivity; assumption.
+  Qed.
+
+  Lemma gtr_shape_snd (cur tgt : list (list byte)) T (unwrap pyd : bool) s :
+    plain_pkgb cur = true -> plain_pkgb tgt = true -> type_okb T = true ->
+    path_eqb tgt google_protobuf = false ->
+    snd (get_type_reference cls_name snake optional (py_join b_dot cur) (b_dot :: py_join b_dot (tgt ++ [T])) unwrap pyd) = Some s ->
+    exists sh, s = render sh /\ valid cur tgt (cls_name T) sh.
+  Proof.
+    intros Pc Pt HT Hg H. destruct (gtr_shape cur tgt T unwrap pyd Pc Pt HT Hg) as [[_ E]|[sh [E V]]]; rewrite E in H; cbn [snd] in H.
+    - discriminate.
+    - injection H as <-. exists sh. split; [reflexivity | exact V].
   Qed.
 
   (* ---------------------------------------------------------------- aliases *)
@@ -391,7 +412,8 @@ Section Clash.
 
   (* the name the rendered line binds, read by the SPEC's parser *)
   Lemma alias_of_render cur tgt C sh :
-    Forall plain_facts tgt -> cls_ok C -> valid cur tgt C sh -> alias_of (render sh) = Some (sh_alias sh).
+    Forall plain_facts tgt -> cls_ok C -> valid cur tgt C sh ->
+    alias_of (render sh) = Some (sh_alias sh) /\ identb (sh_alias sh) = true.
   Proof.
     intros F K V. unfold alias_of, bound_name.
     assert (NE : forall (ys : list (list byte)) x, ys ++ [x] <> []) by (intros ys x; destruct ys; discriminate).
@@ -401,7 +423,7 @@ Section Clash.
       apply identb_chars in Hi. unfold ident_chars in Hi. rewrite forallb_forall in Hi. auto. }
     destruct sh as [x|ys x|d x|d C'|d ys x]; cbn [valid] in V; cbn [render sh_alias].
     - subst tgt. apply Forall_app in F. destruct F as [_ F]. inversion F as [|? ? [Hx _ _ _ _] _]; subst.
-      rewrite parse_stmt_from_dot by exact Hx. reflexivity.
+      rewrite parse_stmt_from_dot by exact Hx. split; [reflexivity | exact Hx].
     - destruct V as [-> Hys]. apply Forall_app in F. destruct F as [_ F].
       assert (Fi : Forall (fun s => identb s = true) (ys ++ [x])).
       { rewrite Forall_forall in *. intros z Hz. destruct (F z Hz). assumption. }
@@ -411,14 +433,14 @@ Section Clash.
       assert (Hps : parse_stmt (s_from_sp ++ b_dot :: py_join b_dot ys ++ s_import_sp ++ x ++ s_as_sp ++ py_join b_us (ys ++ [x]))
                     = Some (SFrom 1 ys x (py_join b_us (ys ++ [x])))).
       { exact (parse_stmt_from_as 1 ys x _ (or_introl (Nat.neq_succ_0 0)) Fys Hx Hal). }
-      rewrite Hps. reflexivity.
+      rewrite Hps. split; [reflexivity | exact Hal].
     - destruct V as [ts [rest [-> _]]]. apply Forall_app in F. destruct F as [_ F]. inversion F as [|? ? [Hx _ _ _ _] _]; subst.
       assert (Hal : identb (b_us :: repeat b_us d ++ x ++ us2) = true).
       { apply (identb_us_wrapped (S d) x); [discriminate | apply identb_chars, Hx]. }
       assert (Hps : parse_stmt (s_from_sp ++ (b_dot :: b_dot :: repeat b_dot d) ++ s_import_sp ++ x ++ s_as_sp ++ b_us :: repeat b_us d ++ x ++ us2)
                     = Some (SFrom (S (S d)) [] x (b_us :: repeat b_us d ++ x ++ us2))).
       { exact (parse_stmt_from_as_nosub (S (S d)) x _ (Nat.neq_succ_0 _) Hx Hal). }
-      rewrite Hps. reflexivity.
+      rewrite Hps. split; [reflexivity | exact Hal].
     - destruct V as [_ [-> [Hc ->]]]. destruct K as [HC _].
       assert (Hd : length cur <> 0) by (destruct cur; [congruence | discriminate]).
       assert (Hal : identb (repeat b_us (length cur) ++ C ++ us2) = true) by (apply identb_us_wrapped; [exact Hd | apply identb_chars, HC]).
@@ -426,7 +448,7 @@ Section Clash.
       assert (Hps : parse_stmt (s_from_sp ++ b_dot :: repeat b_dot (S d) ++ s_import_sp ++ C ++ s_as_sp ++ repeat b_us (S d) ++ C ++ us2)
                     = Some (SFrom (S (S d)) [] C (repeat b_us (S d) ++ C ++ us2))).
       { exact (parse_stmt_from_as_nosub (S (S d)) C _ (Nat.neq_succ_0 _) HC Hal). }
-      rewrite Hps. reflexivity.
+      rewrite Hps. split; [reflexivity | exact Hal].
     - destruct V as [sh' [ra [_ [-> [-> [Hra _]]]]]]. apply Forall_app in F. destruct F as [_ F].
       assert (Fi : Forall (fun s => identb s = true) (ys ++ [x])).
       { rewrite Forall_forall in *. intros z Hz. destruct (F z Hz). assumption. }
@@ -438,26 +460,24 @@ Section Clash.
                                 ++ repeat b_us (length ra) ++ py_join b_us (ys ++ [x]) ++ us2)
                     = Some (SFrom (S (length ra)) ys x (repeat b_us (length ra) ++ py_join b_us (ys ++ [x]) ++ us2))).
       { exact (parse_stmt_from_as (S (length ra)) ys x _ (or_introl (Nat.neq_succ_0 _)) Fys Hx Hal). }
-      rewrite Hps. reflexivity.
+      rewrite Hps. split; [reflexivity | exact Hal].
   Qed.
-
-  Hypothesis cls_good : forall T, type_okb T = true -> identb (cls_name T) = true /\ cls_startb (cls_name T) = true.
 
   Theorem no_alias_clash_gen (cur tgt1 tgt2 : list (list byte)) T1 T2 (u1 u2 pyd : bool) s1 s2 :
     plain_pkgb cur = true -> plain_pkgb tgt1 = true -> plain_pkgb tgt2 = true ->
     type_okb T1 = true -> type_okb T2 = true ->
+    cls_ok (cls_name T1) -> cls_ok (cls_name T2) ->
     path_eqb tgt1 google_protobuf = false -> path_eqb tgt2 google_protobuf = false ->
     snd (get_type_reference cls_name snake optional (py_join b_dot cur) (b_dot :: py_join b_dot (tgt1 ++ [T1])) u1 pyd) = Some s1 ->
     snd (get_type_reference cls_name snake optional (py_join b_dot cur) (b_dot :: py_join b_dot (tgt2 ++ [T2])) u2 pyd) = Some s2 ->
     alias_of s1 = alias_of s2 -> s1 = s2.
   Proof.
-    intros Pc P1 P2 HT1 HT2 G1 G2 R1 R2 EA.
-    destruct (gtr_shape cur tgt1 T1 u1 pyd s1 Pc P1 HT1 G1 R1) as [sh1 [-> V1]].
-    destruct (gtr_shape cur tgt2 T2 u2 pyd s2 Pc P2 HT2 G2 R2) as [sh2 [-> V2]].
+    intros Pc P1 P2 HT1 HT2 K1 K2 G1 G2 R1 R2 EA.
+    destruct (gtr_shape_snd cur tgt1 T1 u1 pyd s1 Pc P1 HT1 G1 R1) as [sh1 [-> V1]].
+    destruct (gtr_shape_snd cur tgt2 T2 u2 pyd s2 Pc P2 HT2 G2 R2) as [sh2 [-> V2]].
     pose proof (plain_pkg_facts _ P1) as F1. pose proof (plain_pkg_facts _ P2) as F2.
-    pose proof (cls_good T1 HT1) as K1. pose proof (cls_good T2 HT2) as K2.
-    rewrite (alias_of_render cur tgt1 (cls_name T1) sh1 F1 K1 V1) in EA.
-    rewrite (alias_of_render cur tgt2 (cls_name T2) sh2 F2 K2 V2) in EA.
+    rewrite (proj1 (alias_of_render cur tgt1 (cls_name T1) sh1 F1 K1 V1)) in EA.
+    rewrite (proj1 (alias_of_render cur tgt2 (cls_name T2) sh2 F2 K2 V2)) in EA.
     injection EA as EA.
     exact (shapes_clash cur tgt1 tgt2 _ _ sh1 sh2 F1 F2 K1 K2 V1 V2 EA).
   Qed.
